@@ -40,6 +40,8 @@ from solvor.utils import check_positive
 
 __all__ = ["solve_bin_pack"]
 
+_EPS = 1e-9  # Tolerance for float round-off when checking whether an item fits
+
 
 def solve_bin_pack(
     item_sizes: Sequence[float],
@@ -99,13 +101,13 @@ def solve_bin_pack(
             # Find bin with least remaining space that still fits
             best_remaining = float("inf")
             for b, (remaining, _) in enumerate(bins):
-                if size <= remaining < best_remaining:
+                if size - remaining <= _EPS and best_remaining - remaining > _EPS:
                     best_remaining = remaining
                     best_bin = b
         else:
             # First-fit: find first bin that fits
             for b, (remaining, _) in enumerate(bins):
-                if size <= remaining:
+                if size - remaining <= _EPS:
                     best_bin = b
                     break
 
